@@ -550,7 +550,7 @@ func (c *Ctx) c18NewickText() ([]byte, string) {
 		if k > 5 {
 			sz = 1 + c.Intn(3)
 		}
-		buf.Write(mustMarshal(c.label(c.randomShape(sz, c.Intn(5)))))
+		buf.Write(refNewickText(c.label(c.randomShape(sz, c.Intn(5))))) // reference writer, not the library's
 		buf.WriteString(newickSeps[c.Intn(len(newickSeps))])
 	}
 	text := buf.Bytes()
